@@ -5,7 +5,7 @@ import numpy as np
 
 from engine import loader
 from engine.runner import Acc
-from engine.util import call, chunks, other_bits
+from engine.util import call, chunks, other_bits, vary_case
 from spec import crc as R
 from spec import frames as F
 
@@ -219,7 +219,7 @@ def w_fields(arg):
             for sd in sds:
                 k += 1
                 ad = [0x406B90, 0xFFFFFF, 1][k % 3]
-                msg = build_sel(ufv, k % 8, rr, di, sd, n, ad, [0, (1 << 56) - 1][k % 2])
+                msg = vary_case(build_sel(ufv, k % 8, rr, di, sd, n, ad, [0, (1 << 56) - 1][k % 2]), k // 2)
                 acc.n += 1
                 s = judge_sel(msg, ufv, rr, di, sd, ad if k % 2 else None)
                 if not s and k % 2 and call(U.uplink_icao, msg) != ("ok", "%06X" % ad):
